@@ -202,7 +202,11 @@ class Model:
         for p in self.pickups:
             if p['attr'] != attr:
                 continue
-            if p['dst'] == dst or p['dst'] == src or p['src'] == dst:
+            # one pickup per target; nothing registered earlier may read the
+            # new target (it would have been applied before its source is
+            # up to date).  Reading an earlier pickup's target is fine: the
+            # chain is then in dependency order and one pass settles it.
+            if p['dst'] == dst or p['src'] == dst:
                 return False
         if attr == 'radius':
             return not self.is_plane(src) and \
